@@ -43,6 +43,7 @@ theorem invA_run {w : Bool} {tr : List Label} {s : State} (r : Run (init w) tr s
   | snoc _ st ih => exact invA_step st ih
 
 set_option maxHeartbeats 4000000 in
+set_option maxRecDepth 10000 in
 /-- Client calls make no endpoint calls except the connects of `resume`, `reset`
 and `newSession`, made while holding the lifecycle lock in a connecting phase. -/
 theorem threadSteps_endpoint {s : State} {th : Thread} {lab : Label} {s' : State}
@@ -54,6 +55,7 @@ theorem threadSteps_endpoint {s : State} {th : Thread} {lab : Label} {s' : State
     aesop (add norm simp [acquire, afterStop, finish, Label.isEndpoint])
 
 set_option maxHeartbeats 8000000 in
+set_option maxRecDepth 10000 in
 /-- How a client call's step can change the persisted pause flag once it is set. -/
 theorem threadSteps_sess {s : State} {th : Thread} {lab : Label} {s' : State}
     (h : (lab, s') ∈ threadSteps s th) (i : InvA s) (hp : s.sess = some true) :
